@@ -31,6 +31,23 @@ def listGet (xs : List Int) (i : Int) : R Int :=
     | none => .error .indexError
   | none => .error .indexError
 
+/-- `xs[i]` on any sequence (tuple, list, deque) -/
+def seqGet {α} (xs : List α) (i : Int) : R α :=
+  match normIndex xs.length i with
+  | some j => match xs[j]? with
+    | some x => .ok x
+    | none => .error .indexError
+  | none => .error .indexError
+
+/-- `deque.pop()`: removes and returns the rightmost element; IndexError on an empty deque -/
+def popRight {α} : List α → R (α × List α)
+  | [] => .error .indexError
+  | [x] => .ok (x, [])
+  | x :: y :: rest =>
+    match popRight (y :: rest) with
+    | .ok (l, init) => .ok (l, x :: init)
+    | .error e => .error e
+
 /-- `a & b` on unbounded integers (two's complement with infinitely many sign bits) -/
 def band : Int → Int → Int
   | .ofNat m, .ofNat n => .ofNat (m &&& n)
